@@ -255,17 +255,29 @@ def semKey (o : Obj) : R SemKey := do
   let pre ← if truthyStr o.pre then (extractLetter (o.pre.getD [])).map Sent.val else pure Sent.inf
   pure (necessaryRelease [o.major, o.minor, o.patch], pre)
 
+/-- the pre component of the packaging key: a dev release without pre/post sorts before every pre-release -/
+def pkgPre (o : Obj) : R LetterK :=
+  if o.pre.isNone && o.post.isNone && o.dev.isSome then pure Sent.ninf
+  else if o.pre.isNone then pure Sent.inf
+  else (extractLetter (o.pre.getD [])).map Sent.val
+
+def pkgPost (o : Obj) : R LetterK :=
+  if truthyStr o.post then (extractLetter (o.post.getD [])).map Sent.val else pure Sent.ninf
+
+def pkgDev (o : Obj) : R LetterK :=
+  if truthyStr o.dev then (extractLetter (o.dev.getD [])).map Sent.val else pure Sent.inf
+
+def pkgLoc (o : Obj) : R (Sent (List (Sent Int × Str))) :=
+  match o.loc with
+  | Option.none => pure Sent.ninf
+  | some l => (localKey l).map Sent.val
+
 /-- `VersionPackage.__extract_tuple` -/
 def pkgKey (o : Obj) : R PkgKey := do
-  let pre ←
-    if o.pre.isNone && o.post.isNone && o.dev.isSome then pure Sent.ninf
-    else if o.pre.isNone then pure Sent.inf
-    else (extractLetter (o.pre.getD [])).map Sent.val
-  let post ← if truthyStr o.post then (extractLetter (o.post.getD [])).map Sent.val else pure Sent.ninf
-  let dev ← if truthyStr o.dev then (extractLetter (o.dev.getD [])).map Sent.val else pure Sent.inf
-  let loc ← match o.loc with
-    | Option.none => pure Sent.ninf
-    | some l => (localKey l).map Sent.val
+  let pre ← pkgPre o
+  let post ← pkgPost o
+  let dev ← pkgDev o
+  let loc ← pkgLoc o
   pure (o.epoch, necessaryRelease [o.major, o.minor, o.patch], pre, post, dev, loc)
 
 def encBaseKey (k : BaseKey) : PV :=
